@@ -270,6 +270,59 @@ def rand_build(rng):
     return {"k": "build", "host": host.hex(), "port": port, "payload": rbytes(rng, rng.choice([0, 1, 2, 30, 300])).hex()}
 
 
+# ---- histories on ONE relay: results are retained and compared after every later operation ----
+
+DESTS = [(b"8.8.8.8", 53, 4), (b"10.0.0.1", 8080, 48), (b"2001:db8::1", 2222, 16), (b"::ffff:1.2.3.4", 443, 1),
+         (b"a", 80, 0), (b"example.com", 443, 48), (b"a-rather-long-host-name.example.org", 65535, 300), (b"", 0, 2)]
+
+
+def build_op(host, port, plen, fill):
+    return {"op": "build", "host": host.hex(), "port": port, "payload": bytes([fill & 0xFF] * plen).hex()}
+
+
+def parse_op(rng):
+    while True:
+        d = bytes.fromhex(rand_datagram(rng)["d"])
+        if len(d) >= 10:            # shorter ones are the 'udp' cases' business (and differ on an unrepaired tree)
+            return {"op": "parse", "d": d.hex()}
+
+
+def enum_histories():
+    """every ordered pair and every triple (x, y, x-sized z) of the destinations above: later results shorter, equal and
+    longer than earlier ones, all address types"""
+    out = []
+    for i, a in enumerate(DESTS):
+        for j, b in enumerate(DESTS):
+            out.append({"k": "seq", "ops": [build_op(*a, 0xA0 + i), build_op(*b, 0xB0 + j)]})
+            c = DESTS[(i + j + 1) % len(DESTS)]
+            out.append({"k": "seq", "ops": [build_op(*a, 0xA0 + i), build_op(*b, 0xB0 + j), build_op(*c, 0xC0 + i)]})
+    return out
+
+
+def rand_history(rng):
+    ops = []
+    for _ in range(rng.choice([2, 3, 3, 4, 6, 8])):
+        if rng.random() < 0.65:
+            b = rand_build(rng)
+            ops.append({"op": "build", "host": b["host"], "port": b["port"], "payload": b["payload"]})
+        else:
+            ops.append(parse_op(rng))
+    return {"k": "seq", "ops": ops}
+
+
+def conc_cases(rng, n, rounds):
+    out = [{"k": "conc", "rounds": rounds, "ops": [build_op(*d, 0x10 + i) for i, d in enumerate(DESTS[:4])]},
+           {"k": "conc", "rounds": rounds, "ops": [build_op(*d, 0x20 + i) for i, d in enumerate(DESTS)]}]
+    for _ in range(n):
+        g = rng.choice([2, 3, 4, 8])
+        ops = []
+        for i in range(g):
+            b = rand_build(rng)
+            ops.append({"op": "build", "host": b["host"], "port": b["port"], "payload": b["payload"]})
+        out.append({"k": "conc", "rounds": rounds, "ops": ops})
+    return out
+
+
 # ---------------------------------------------------------------------------------------------------
 # case -> universal value for Corr/C20.check
 # ---------------------------------------------------------------------------------------------------
@@ -298,6 +351,18 @@ def case_value(c, o):
                  o["ok2"], canon_value(o["canon2"]), o["port2"], hb(o["payload2"])], tbl_value(o)]
     if c["k"] == "build":
         return [3, hb(c["host"]), c["port"], hb(c["payload"]), hb(o["built"]), tbl_value(o)]
+    if c["k"] in ("seq", "conc"):
+        ops = c["ops"]
+        if c["k"] == "conc":        # the harness reports round-major, session i of round r builds ops[(i+r) % g]
+            g = len(ops)
+            ops = [ops[(i + r) % g] for r in range(len(o["ops"]) // g) for i in range(g)]
+        vals = []
+        for op, r in zip(ops, o["ops"]):
+            if op["op"] == "build":
+                vals.append([0, hb(op["host"]), op["port"], hb(op["payload"]), hb(r["built"])])
+            else:
+                vals.append([1, hb(op["d"]), r["ok"], canon_value(r["canon"]), r["port"], hb(r["payload"])])
+        return [4, vals, tbl_value(o)]
     raise ValueError(c["k"])
 
 
@@ -325,6 +390,12 @@ def shrink(binary, case, key):
             t = dict(cur, cuts=cur["cuts"][:-1])
             if fails(t):
                 cur, changed = t, True
+        if cur.get("ops") and len(cur["ops"]) > 2:
+            for i in range(len(cur["ops"])):
+                t = dict(cur, ops=cur["ops"][:i] + cur["ops"][i + 1:])
+                if fails(t):
+                    cur, changed = t, True
+                    break
         if not changed:
             break
     return cur
@@ -388,6 +459,9 @@ def run(ctx, only_cases=None):
         cases += ud
         cases += [rand_datagram(rng) for _ in range(20000 if thorough else 1500)]
         cases += [rand_build(rng) for _ in range(4000 if thorough else 400)]
+        cases += enum_histories()
+        cases += [rand_history(rng) for _ in range(3000 if thorough else 300)]
+        cases += conc_cases(rng, 60 if thorough else 10, 8 if thorough else 4)
         cases = dedupe(cases)
     outs = vlib.run_harness(binary, cases, timeout=1500)
 
@@ -441,7 +515,8 @@ def run(ctx, only_cases=None):
     dist = {"listener": 0, "adapter_noauth": 0, "adapter_auth": 0, "udp_parse": 0, "udp_build": 0,
             "sessions_accepted": 0, "sessions_with_error_reply": 0, "sessions_rejected_silently_or_incomplete": 0,
             "udp_accepted": 0, "udp_dropped": 0, "chunkings": {"one_shot": 0, "bytewise": 0, "other": 0},
-            "enumerated_structured_cases": n_enum}
+            "enumerated_structured_cases": n_enum, "relay_histories": 0, "concurrent_build_cases": 0,
+            "history_operations": 0, "parse_results_whose_payload_aliases_the_input_buffer": 0}
     for c, o in zip(cases, outs):
         k = c["k"]
         if k in ("listener", "adapter"):
@@ -463,9 +538,15 @@ def run(ctx, only_cases=None):
                 nontrivial.add(case_key(c))
             else:
                 dist["udp_dropped"] += 1
-        else:
+        elif k == "build":
             dist["udp_build"] += 1
             nontrivial.add(case_key(c))
+        else:
+            dist["relay_histories" if k == "seq" else "concurrent_build_cases"] += 1
+            dist["history_operations"] += len(o.get("ops") or [])
+            dist["parse_results_whose_payload_aliases_the_input_buffer"] += o.get("payload_aliases_input", 0)
+            if sum(1 for op in c["ops"] if op["op"] == "build") >= 2:
+                nontrivial.add(case_key(c))
     pick = [i for i in (0, len(cases) // 3, 2 * len(cases) // 3, len(cases) - 1) if 0 <= i < len(cases)]
     ctx.coverage.update({
         "evaluations": len(cases), "distinct_nontrivial": len(nontrivial),
@@ -474,9 +555,12 @@ def run(ctx, only_cases=None):
                 "flips / insertions / deletions / random bytes), the structured enumeration ver x nmethods{0,1,2,255} x methods x "
                 "cmd 0..4 x atyp 0..5 x domain length {0,1,2,255} x every truncation point x {one-shot, byte-wise, greeting "
                 "coalesced with the next byte, greeting alone} (complete in the thorough tier, a seeded sample in quick), UDP "
-                "datagrams (enumeration frag x atyp x length x payload x truncation + random) and buildUDPHeader destinations; "
+                "datagrams (enumeration frag x atyp x length x payload x truncation + random), buildUDPHeader destinations, "
+                "histories of build/parse operations on ONE relay whose results are retained and re-compared after every later "
+                "operation (every ordered pair and triple of 8 destinations of all address types and of shorter/equal/longer "
+                "sizes + random histories) and rounds of 2..8 goroutines building at the same time on one relay, judged after a barrier; "
                 "all from one PRNG seeded by VERIF_SEED.  distinct = distinct case JSON; non-trivial = a session that is accepted "
-                "or answered with an RFC error reply, an accepted datagram, or a build case.  Every case is run through the real "
+                "or answered with an RFC error reply, an accepted datagram, a build case, or a relay history with at least two builds.  Every case is run through the real "
                 "parsers, judged by the Go-side RFC reference, and compared with the extracted Coq model.",
         "samples": [{"case": cases[i], "observed": {k: v for k, v in outs[i].items() if k != "tbl"}} for i in pick],
         "exhaustive": exhaustive,
@@ -492,6 +576,14 @@ def run(ctx, only_cases=None):
         "io.Reader contract: a Read returns n>0 or an error (the chunk oracle never returns (0,nil)); conn.Write does not fail",
         "reserved fields (RSV) are not validated by the reference; the 4-byte fixed part of a request is judged as a unit",
         "Go index-out-of-range panics are not modelled (the harness recovers and reports any panic as a violation)",
+        "results are values (C20_udp_results_are_values is trivial in Gallina): for the Go code this is the no-aliasing assumption "
+        "checked by the seq/conc cases: a datagram returned by buildUDPHeader keeps its bytes until its consumer is done with it "
+        "(after any later build/parse on the same relay, after the caller reuses the payload buffer it passed in, and after a "
+        "barrier under concurrent builds); the host string returned by parseUDPHeader does not change when the input buffer is reused",
+        "parseUDPHeader returns the payload as a SUB-SLICE of its input buffer (payload := data[headerLen:]; not documented in the "
+        "code, measured on every run: coverage.input_distribution.parse_results_whose_payload_aliases_the_input_buffer). This is "
+        "accepted because readLoop hands every datagram its own copy (dataCopy) and handlePacket uses the payload before returning; "
+        "readLoop/handlePacket themselves (real sockets, goroutines) are not driven by this check",
         "host names longer than 255 bytes are not given to buildUDPHeader (its callers pass hosts obtained from parseUDPHeader)",
     ]
     if broken is not None:
